@@ -87,125 +87,9 @@ impl<'a, T: Transport> Transferrer<'a, T> {
             // Check if this is a hardlink we should preserve
             if self.preserve_hardlinks && source.nlink > 1 {
                 if let Some(inode) = source.inode {
-                    // Loop until we either create a hardlink or copy the file
-                    loop {
-                        let state = {
-                            let map = self.hardlink_map.lock().unwrap();
-                            map.get(&inode).cloned()
-                        }; // Lock dropped
-
-                        match state {
-                            Some(InodeState::Completed(first_path)) => {
-                                // Another task already copied this file, create hardlink
-                                tracing::debug!(
-                                    "Creating hardlink: {} -> {} (inode: {})",
-                                    dest_path.display(),
-                                    first_path.display(),
-                                    inode
-                                );
-                                self.transport
-                                    .create_hardlink(&first_path, dest_path)
-                                    .await?;
-
-                                return Ok(Some(TransferResult {
-                                    bytes_written: 0,
-                                    compression_used: false,
-                                    transferred_bytes: Some(0),
-                                    delta_operations: None,
-                                    literal_bytes: None,
-                                }));
-                            }
-                            Some(InodeState::InProgress(notify)) => {
-                                // Another task is copying, wait for it to complete
-                                tracing::debug!(
-                                    "Waiting for inode {} to complete ({})",
-                                    inode,
-                                    source.path.display()
-                                );
-                                // Register for the notification *before* re-checking the
-                                // map: a `Notified` future receives every `notify_waiters()`
-                                // call made after its creation, so a completion (or failure)
-                                // between the check and the await cannot be missed.
-                                let notified = notify.notified();
-                                let still_in_progress = {
-                                    let map = self.hardlink_map.lock().unwrap();
-                                    matches!(
-                                        map.get(&inode),
-                                        Some(InodeState::InProgress(current))
-                                            if Arc::ptr_eq(current, &notify)
-                                    )
-                                }; // Lock dropped
-                                if still_in_progress {
-                                    notified.await;
-                                }
-                                // Loop back: Completed -> link, removed -> claim it ourselves
-                                continue;
-                            }
-                            None => {
-                                // First task to encounter this inode, claim it
-                                let notify = Arc::new(Notify::new());
-                                {
-                                    let mut map = self.hardlink_map.lock().unwrap();
-                                    // Double-check another task didn't claim it while we released the lock
-                                    if map.contains_key(&inode) {
-                                        continue; // Loop back to check state again
-                                    }
-                                    map.insert(inode, InodeState::InProgress(Arc::clone(&notify)));
-                                } // Lock dropped
-
-                                tracing::debug!(
-                                    "First occurrence of inode {}, copying {} to {}",
-                                    inode,
-                                    source.path.display(),
-                                    dest_path.display()
-                                );
-
-                                // Copy the file and its metadata. Errors are collected here
-                                // (instead of returning early) so the claim is always released.
-                                let copied: Result<TransferResult> = async {
-                                    // Copy the file
-                                    let result = self.copy_file(&source.path, dest_path).await?;
-
-                                    // Write extended attributes if present
-                                    self.write_xattrs(source, dest_path).await?;
-
-                                    // Write ACLs if present
-                                    self.write_acls(source, dest_path).await?;
-
-                                    // Write BSD flags if present (macOS only)
-                                    self.write_bsd_flags(source, dest_path).await?;
-
-                                    Ok(result)
-                                }
-                                .await;
-
-                                return match copied {
-                                    Ok(result) => {
-                                        // Mark as completed and notify waiters
-                                        {
-                                            let mut map = self.hardlink_map.lock().unwrap();
-                                            map.insert(
-                                                inode,
-                                                InodeState::Completed(dest_path.to_path_buf()),
-                                            );
-                                        }
-                                        notify.notify_waiters();
-                                        Ok(Some(result))
-                                    }
-                                    Err(e) => {
-                                        // Release the claim so that a waiting task can take over
-                                        // (it copies its own path), then wake every waiter.
-                                        {
-                                            let mut map = self.hardlink_map.lock().unwrap();
-                                            map.remove(&inode);
-                                        }
-                                        notify.notify_waiters();
-                                        Err(e)
-                                    }
-                                };
-                            }
-                        }
-                    }
+                    return self
+                        .transfer_link_member(source, dest_path, inode, false)
+                        .await;
                 }
             }
 
@@ -222,6 +106,176 @@ impl<'a, T: Transport> Transferrer<'a, T> {
             self.write_bsd_flags(source, dest_path).await?;
 
             Ok(Some(result))
+        }
+    }
+
+    /// Transfer one member of a source hard-link group (create or update): the first
+    /// member to arrive copies the file, every other member becomes a hard link to the
+    /// first member's destination path
+    async fn transfer_link_member(
+        &self,
+        source: &FileEntry,
+        dest_path: &Path,
+        inode: u64,
+        is_update: bool,
+    ) -> Result<Option<TransferResult>> {
+        // Loop until we either create a hardlink or copy the file
+        loop {
+            let state = {
+                let map = self.hardlink_map.lock().unwrap();
+                map.get(&inode).cloned()
+            }; // Lock dropped
+
+            match state {
+                Some(InodeState::Completed(first_path)) => {
+                    // Another task already copied this file, create hardlink
+                    tracing::debug!(
+                        "Creating hardlink: {} -> {} (inode: {})",
+                        dest_path.display(),
+                        first_path.display(),
+                        inode
+                    );
+                    if is_update {
+                        // The destination entry already exists: nothing to do
+                        // when it already is a name of the group's inode (the
+                        // first member's update rewrote it), otherwise replace
+                        // it by a link
+                        if self.same_inode(&first_path, dest_path).await {
+                            return Ok(Some(TransferResult {
+                                bytes_written: 0,
+                                compression_used: false,
+                                transferred_bytes: Some(0),
+                                delta_operations: None,
+                                literal_bytes: None,
+                            }));
+                        }
+                        self.transport.remove(dest_path, false).await?;
+                    }
+                    self.transport
+                        .create_hardlink(&first_path, dest_path)
+                        .await?;
+
+                    return Ok(Some(TransferResult {
+                        bytes_written: 0,
+                        compression_used: false,
+                        transferred_bytes: Some(0),
+                        delta_operations: None,
+                        literal_bytes: None,
+                    }));
+                }
+                Some(InodeState::InProgress(notify)) => {
+                    // Another task is copying, wait for it to complete
+                    tracing::debug!(
+                        "Waiting for inode {} to complete ({})",
+                        inode,
+                        source.path.display()
+                    );
+                    // Register for the notification *before* re-checking the
+                    // map: a `Notified` future receives every `notify_waiters()`
+                    // call made after its creation, so a completion (or failure)
+                    // between the check and the await cannot be missed.
+                    let notified = notify.notified();
+                    let still_in_progress = {
+                        let map = self.hardlink_map.lock().unwrap();
+                        matches!(
+                            map.get(&inode),
+                            Some(InodeState::InProgress(current))
+                                if Arc::ptr_eq(current, &notify)
+                        )
+                    }; // Lock dropped
+                    if still_in_progress {
+                        notified.await;
+                    }
+                    // Loop back: Completed -> link, removed -> claim it ourselves
+                    continue;
+                }
+                None => {
+                    // First task to encounter this inode, claim it
+                    let notify = Arc::new(Notify::new());
+                    {
+                        let mut map = self.hardlink_map.lock().unwrap();
+                        // Double-check another task didn't claim it while we released the lock
+                        if map.contains_key(&inode) {
+                            continue; // Loop back to check state again
+                        }
+                        map.insert(inode, InodeState::InProgress(Arc::clone(&notify)));
+                    } // Lock dropped
+
+                    tracing::debug!(
+                        "First occurrence of inode {}, copying {} to {}",
+                        inode,
+                        source.path.display(),
+                        dest_path.display()
+                    );
+
+                    // Copy the file and its metadata. Errors are collected here
+                    // (instead of returning early) so the claim is always released.
+                    let copied: Result<TransferResult> = async {
+                        // Copy the file
+                        let result = if is_update {
+                            self.transport
+                                .sync_file_with_delta(&source.path, dest_path)
+                                .await?
+                        } else {
+                            self.copy_file(&source.path, dest_path).await?
+                        };
+
+                        // Write extended attributes if present
+                        self.write_xattrs(source, dest_path).await?;
+
+                        // Write ACLs if present
+                        self.write_acls(source, dest_path).await?;
+
+                        // Write BSD flags if present (macOS only)
+                        self.write_bsd_flags(source, dest_path).await?;
+
+                        Ok(result)
+                    }
+                    .await;
+
+                    return match copied {
+                        Ok(result) => {
+                            // Mark as completed and notify waiters
+                            {
+                                let mut map = self.hardlink_map.lock().unwrap();
+                                map.insert(inode, InodeState::Completed(dest_path.to_path_buf()));
+                            }
+                            notify.notify_waiters();
+                            Ok(Some(result))
+                        }
+                        Err(e) => {
+                            // Release the claim so that a waiting task can take over
+                            // (it copies its own path), then wake every waiter.
+                            {
+                                let mut map = self.hardlink_map.lock().unwrap();
+                                map.remove(&inode);
+                            }
+                            notify.notify_waiters();
+                            Err(e)
+                        }
+                    };
+                }
+            }
+        }
+    }
+
+    /// Do two destination paths name the same inode?
+    async fn same_inode(&self, a: &Path, b: &Path) -> bool {
+        #[cfg(unix)]
+        {
+            use std::os::unix::fs::MetadataExt;
+            match (
+                self.transport.metadata(a).await,
+                self.transport.metadata(b).await,
+            ) {
+                (Ok(ma), Ok(mb)) => ma.ino() == mb.ino() && ma.dev() == mb.dev(),
+                _ => false,
+            }
+        }
+        #[cfg(not(unix))]
+        {
+            let _ = (a, b);
+            false
         }
     }
 
@@ -249,6 +303,24 @@ impl<'a, T: Transport> Transferrer<'a, T> {
         // sync_file_with_delta would follow both the source and the destination link
         if source.is_symlink {
             return self.handle_symlink(source, dest_path).await;
+        }
+
+        // Members of a source hard-link group are coordinated exactly as on creation:
+        // one member rewrites the file, the others end up as links to it (concurrent
+        // in-place rewrites of one shared inode would race, and temp-file updates
+        // would split the group)
+        if !source.is_dir && self.preserve_hardlinks && source.nlink > 1 {
+            if let Some(inode) = source.inode {
+                let result = self
+                    .transfer_link_member(source, dest_path, inode, true)
+                    .await?;
+                tracing::info!(
+                    "Updated: {} -> {}",
+                    source.path.display(),
+                    dest_path.display()
+                );
+                return Ok(result);
+            }
         }
 
         if !source.is_dir {
